@@ -4,7 +4,8 @@
    theorem, not axioms); the executable model's own float arithmetic (Round53) is validated against
    the hardware by the correspondence on every run. *)
 From GVL Require Import NList Wire Wrap.
-From GV_rtptime Require Import Round53 Model Proofs Float.
+From GVG Require Import Kern.
+From GV_rtptime Require Import Round53 Model Proofs Float Bridge.
 Open Scope Z_scope.
 
 (* pts_is_continuation: for any start value, any initial timestamp and any list of signed steps with
@@ -176,3 +177,26 @@ Proof. vm_compute. reflexivity. Qed.
 Example C15_example_ntp : decode (encode 1700000000123456789) = 1700000000123456789
                           \/ decode (encode 1700000000123456789) = 1700000000123456788.
 Proof. vm_compute. auto. Qed.
+
+(* THE TRANSLATED TIE.  GVG.Kern is regenerated from pkg/rtptime/global_decoder.go on every run by tools/go2coq;
+   k_multiplyAndDivide and k_track_decode are the Go functions themselves (int64 / uint32 / int32 wrap-around and
+   Go's truncated division made explicit, division by zero = None).  For all int64 arguments they ARE the functions
+   the model and all theorems above are stated with. *)
+Theorem C15_rtptime_kernels_are_the_code : forall v m d overall prev ts,
+  in64 v -> in64 d -> in64 overall -> 0 <= ts < 4294967296 -> 0 <= prev < 4294967296 ->
+  (d <> 0 -> k_multiplyAndDivide v m d = Some (mad v m d)) /\
+  k_multiplyAndDivide v m 0 = None /\
+  k_track_decode ts overall prev =
+    (fst (decode_step overall prev ts), fst (decode_step overall prev ts), snd (decode_step overall prev ts)).
+Proof.
+  intros v m d overall prev ts Hv Hd Ho Ht Hp. split; [intros Hd0; apply bridge_mad; assumption|].
+  split; [apply bridge_mad_zero|apply bridge_decode_step; assumption].
+Qed.
+Print Assumptions C15_rtptime_kernels_are_the_code.
+
+(* the translated kernels compute: 90 kHz ticks to nanoseconds without overflow for a 10-year stream; a backward
+   step across the 32-bit wrap *)
+Example C15_example_kernels :
+  k_multiplyAndDivide 28382400000000 1000000000 90000 = Some 315360000000000000 /\
+  k_track_decode 4294967290 100 5 = (89, 89, 4294967290).
+Proof. vm_compute. split; reflexivity. Qed.
